@@ -1,5 +1,60 @@
-"""Reset of every module-level mutable global of netqasm between executions."""
+"""Reset of every module-level / class-level mutable global of netqasm between executions.
+
+Two layers:
+
+* the globals this machinery knows by name (application-id registries, shared memories, loggers, the hardware flag);
+* a generic sweep: at the first reset every netqasm module is imported and every module-level and class-level attribute
+  that is an *empty* container (list / dict / set / deque - registries and caches start empty, constant tables do not) or an
+  underscore-named scalar is recorded; every later reset empties those containers and restores those scalars.  A registry
+  or cache that a later version of netqasm adds is therefore reset as well, and an exploration that replays histories
+  on fresh objects stays deterministic without this file having to know the new name.
+
+State that leaks between *coexisting* objects (a per-object list made per-class) is not hidden by this: the checks that
+are about such objects build two of them side by side (C01/C02/C17 flavours, C09 connections, C13 controllers).
+"""
 from __future__ import annotations
+
+import collections
+import inspect
+import sys
+from typing import Any, Dict, List, Tuple
+
+_CONTAINERS = (list, dict, set, collections.deque)
+_SCALARS = (int, float, bool, str, type(None))
+_PRISTINE_CONTAINERS: List[Tuple[Any, str, Any]] = []      # (owner, name, container object)
+_PRISTINE_SCALARS: List[Tuple[Any, str, Any]] = []         # (owner, name, value)
+_SWEPT = False
+
+
+def _sweep() -> None:
+    global _SWEPT
+    _SWEPT = True
+    import importlib
+    import pkgutil
+
+    import netqasm
+    for m in pkgutil.walk_packages(netqasm.__path__, "netqasm."):
+        if ".examples" in m.name or ".external" in m.name or m.name.endswith("__main__"):
+            continue
+        try:
+            importlib.import_module(m.name)
+        except BaseException:      # optional back ends that are not installed
+            continue
+    seen = set()
+    for modname, mod in list(sys.modules.items()):
+        if not (modname == "netqasm" or modname.startswith("netqasm.")) or mod is None:
+            continue
+        owners = [mod] + [c for c in vars(mod).values() if inspect.isclass(c) and getattr(c, "__module__", None) == modname]
+        for owner in owners:
+            for name, val in list(vars(owner).items()):
+                if name.startswith("__") or name.endswith("_") or name in ("_field_defaults", "_fields") \
+                        or (id(owner), name) in seen:
+                    continue             # dunder / Enum sunder / namedtuple / ctypes machinery
+                seen.add((id(owner), name))
+                if isinstance(val, _CONTAINERS) and not isinstance(val, tuple) and len(val) == 0:
+                    _PRISTINE_CONTAINERS.append((owner, name, val))
+                elif name.startswith("_") and not name.isupper() and isinstance(val, _SCALARS) and not callable(val):
+                    _PRISTINE_SCALARS.append((owner, name, val))
 
 
 def reset() -> None:
@@ -8,6 +63,8 @@ def reset() -> None:
     from netqasm.sdk.connection import BaseNetQASMConnection, DebugConnection
     from netqasm.sdk.shared_memory import SharedMemoryManager
 
+    if not _SWEPT:
+        _sweep()
     SharedMemoryManager._MEMORIES.clear()
     BaseNetQASMConnection._app_ids.clear()
     BaseNetQASMConnection._app_names.clear()
@@ -19,6 +76,23 @@ def reset() -> None:
         ThreadSocket._COMM_LOGGERS.clear()
     except Exception:
         pass
+    for owner, name, obj in _PRISTINE_CONTAINERS:
+        cur = vars(owner).get(name)
+        if cur is obj:
+            if obj:
+                obj.clear()
+        elif isinstance(cur, _CONTAINERS) and cur:
+            cur.clear()                      # rebound to another container since: empty that one
+    for owner, name, val in _PRISTINE_SCALARS:
+        if vars(owner).get(name, val) is not val and vars(owner).get(name) != val:
+            try:
+                setattr(owner, name, val)
+            except (AttributeError, TypeError):
+                pass
+
+
+def swept() -> Dict[str, int]:
+    return {"containers": len(_PRISTINE_CONTAINERS), "scalars": len(_PRISTINE_SCALARS)}
 
 
 class hardware_mode:
